@@ -5,6 +5,7 @@ import (
 	"sync"
 
 	"github.com/ajitpratap0/GoSQLX/pkg/metrics"
+	"github.com/ajitpratap0/GoSQLX/pkg/sql/keywords"
 )
 
 // bufferPool is used to reuse bytes.Buffer instances during tokenization.
@@ -111,6 +112,13 @@ func GetTokenizer() *Tokenizer {
 func PutTokenizer(t *Tokenizer) {
 	if t != nil {
 		t.Reset()
+		// A dialect chosen with SetDialect (or custom keywords) belongs to the
+		// holder that chose it: pooled tokenizers go back in the configuration
+		// New() gives them.
+		if t.dialect != keywords.DialectPostgreSQL {
+			t.dialect = keywords.DialectPostgreSQL
+			t.keywords = keywords.NewKeywords()
+		}
 		tokenizerPool.Put(t)
 
 		// Record pool return
